@@ -29,13 +29,15 @@ impl Apply for ReverseChainSingleSubstitution<'_> {
         let subst = self.substitutes.get(index)?;
 
         let f1 = |glyph, index| {
-            let value = self.backtrack_coverages.get(index).unwrap();
-            value.contains(glyph)
+            self.backtrack_coverages
+                .get(index)
+                .map_or(false, |value| value.contains(glyph))
         };
 
         let f2 = |glyph, index| {
-            let value = self.lookahead_coverages.get(index).unwrap();
-            value.contains(glyph)
+            self.lookahead_coverages
+                .get(index)
+                .map_or(false, |value| value.contains(glyph))
         };
 
         let mut start_index = 0;
